@@ -232,7 +232,7 @@ class Model:
         """
         if self._reeval(c):
             exp.events.append((kind, c["id"], "opt"))
-        if c.get("err") == "factory":
+        if c.get("err") in ("factory", "method"):
             if discarded:
                 exp.events.append(("error", c["id"], "opt"))
             else:
